@@ -47,6 +47,23 @@ def model_strategy(draw, quick):
   opt = '<option timestep="%s" integrator="%s"%s><flag%s/></option>' % (mg.fmt(h), integ, medium, ''.join(' %s="%s"' % kv for kv in fl.items()))
   gm = draw(gs.smooth_models(max_bodies=4 if quick else 8, max_joints=2, tendons=True, actuators=True, opt=opt,
                              stateful_actuators=True, joint_kwargs=dict(frictionloss=False)))
+  # reach: Euler implicit damping that comes ONLY from actuator damping (every joint damping zero, eulerdamp/damper enabled)
+  if integ == 'Euler' and gm.info.get('hs_joints') and draw(st.integers(0, 2)) == 0:
+    import xml.etree.ElementTree as ET
+    root = ET.fromstring(gm.xml)
+    for j in root.find('worldbody').iter('joint'):
+      j.attrib.pop('damping', None)
+    flag = root.find('option').find('flag')
+    for f in ('eulerdamp', 'damper', 'actuation'):
+      flag.attrib.pop(f, None)
+    act = root.find('actuator')
+    if act is None:
+      act = ET.SubElement(root, 'actuator')
+    jn = draw(st.sampled_from(gm.info['hs_joints']))
+    dmp = mg.fmt(draw(mg.num(0.05, 2))) if draw(st.booleans()) else '%s %s %s' % (mg.fmt(draw(mg.num(0, 1))), mg.fmt(draw(mg.num(0.01, 0.5))), mg.fmt(draw(mg.num(0, 0.2))))
+    ET.SubElement(act, 'motor', name='adamp', joint=jn, gear=mg.fmt(draw(mg.num(-3, 3, 1)) or 2.0), damping=dmp)
+    gm.xml = ET.tostring(root, encoding='unicode')
+    gm.info['labels'] = sorted(set(gm.info['labels']) | {'euler:actuator-damping-only'})
   if medium:
     gm.info['labels'] = sorted(set(gm.info['labels']) | {'fluid'})
   gm.info['integrator'] = integ
@@ -162,7 +179,7 @@ def main(ck):
     d0.time = float(seed % 997) * 0.125
     t0 = float(d0.time)
     S = kin.snap(m)
-    labels = gs.brief(gm.labels(), ('damping:', 'act:')) + gs.classify(lib, m) + ['int:' + integ] + ['flag:%s-off' % f for f in fl if fl[f] == 'disable' and f != 'contact']
+    labels = gs.brief(gm.labels(), ('damping:', 'act:', 'euler:')) + gs.classify(lib, m) + ['int:' + integ] + ['flag:%s-off' % f for f in fl if fl[f] == 'disable' and f != 'contact']
 
     # ---- engine: one step on a twin
     d1 = lib.copy_data(m, d0)
